@@ -1851,6 +1851,13 @@ func (s *BgpServer) handleFSMMessage(peer *peer, e *fsmMsg) {
 				peer.fsm.gConf.Config.RouterId, conf.Transport.State.RemoteAddress, conf.Transport.State.LocalAddress)
 			peer.peerInfo.Store(peerInfo)
 
+			// Publish the state before the initial table transfer below. The FSM
+			// loop stores it only after this callback returns; until then
+			// propagateUpdateToNeighbors (needToAdvertise) skips this peer, so a
+			// route installed after the table was read for the transfer but
+			// before the store was never sent to the peer at all.
+			peer.fsm.state.Store(nextState)
+
 			if conf.GracefulRestart.State.PeerRestarting {
 				// RFC 4724 4.2: stale routes of a family that the new OPEN does not list with the
 				// forwarding bit (or when it has no GR capability) are removed immediately.
